@@ -34,6 +34,7 @@ type RdrSpec struct {
 // the publishers, lets everything settle, then shuts the manager down (which closes what is still attached).
 func PubReadBody(c *conf.Conf, pubs []PubSpec, rdrs []RdrSpec, hooks bool) func() {
 	return func() {
+		Live = nil // the invariant must not look at the previous execution
 		pm := New(c, AllowAll{}, hooks)
 		Live = pm
 		desc, m, f := NewDesc()
